@@ -47,6 +47,10 @@ class Prop(PropBase):
             cs.append(Case(line, tag="reshapes-same-sequence", cfgs=[rng.choice(CFGS)]))
         for line in sg.neighbour_after_move(rng, 300 if tier == "quick" else 6000):
             cs.append(Case(line, tag="neighbour-after-move", cfgs=[rng.choice(CFGS)]))
+        for line in sg.kept_references(rng, 300 if tier == "quick" else 6000):
+            cs.append(Case(line, tag="kept-references", cfgs=[rng.choice(CFGS)]))
+        for line in sg.large_canvas_replaced(rng, 12 if tier == "quick" else 120):
+            cs.append(Case(line, tag="large-canvas-replaced", cfgs=[rng.choice(CFGS)]))
         for line in sg.wide_runs(rng, tier):
             cs.append(Case(line, sweep="wide-runs", cfgs=[rng.choice(CFGS)]))
         for line, cf in sg.large_canvas_edits(rng, CFGS, tier):
